@@ -34,7 +34,7 @@ pub fn run_once(p: &CfgParams, hist: &[usize]) -> StepReport {
     for c in &p.cfgs {
         let mut sp = p.seq.clone();
         sp.cfg = *c;
-        sp.reopen_cfg = Some(*c);
+        sp.reopen_cfg = p.seq.reopen_cfg.or(Some(*c));
         sp.oom_tolerant = c.cache < p.oom_allowed_below;
         let r = seq::run_once(&sp, hist);
         *counters.entry("configuration_runs".into()).or_insert(0) += 1;
